@@ -17,9 +17,9 @@ def parseObj (s : String) : Option Obj :=
         match hexStr k, hexStr v with
         | some k, some v =>
           match kind with
-          | "n" => some (k, Val.null)
-          | "s" => some (k, Val.str v)
-          | "o" => some (k, Val.other v)
+          | "n" => some (keyOfName k, Val.null)
+          | "s" => some (keyOfName k, Val.str v)
+          | "o" => some (keyOfName k, Val.other v)
           | _ => none
         | _, _ => none
       | _ => none
@@ -27,7 +27,8 @@ def parseObj (s : String) : Option Obj :=
 
 def showObj (o : Obj) : String :=
   if o.isEmpty then "-" else
-  let sorted := o.toArray.qsort (fun a b => a.1 < b.1)
+  let named := o.map fun p => (nameOfKey p.1, p.2)
+  let sorted := named.toArray.qsort (fun a b => a.1 < b.1)
   ",".intercalate (sorted.toList.map fun p =>
     let (kind, v) := match p.2 with | .null => ("n", "null") | .str s => ("s", s) | .other s => ("o", s)
     strHex p.1 ++ "=" ++ kind ++ ":" ++ strHex v)
@@ -36,7 +37,7 @@ def njOps (w : List String) : Option String :=
   match w with
   | ["nj.update", orig, new, user, rep, cond] =>
     let og := if orig == "-" then some none else (parseObj orig).map some
-    let cs := if cond == "-" then some [] else (cond.splitOn ",").mapM hexStr
+    let cs := if cond == "-" then some [] else ((cond.splitOn ",").mapM hexStr).map (·.map keyOfName)
     match og, parseObj new, hexStr user, cs with
     | some og, some nw, some user, some cs =>
       some ("ok " ++ showObj (updateJSON og nw ("\"" ++ user ++ "\"") "\"T\"" cs (rep == "1")))
